@@ -89,7 +89,9 @@ def nest(snippets: list):
 
 def parse_value(value: str):
     global opt
-    return parse(value.strip(), opt)[0].value
+    # NB: value of `+` only has no properties at all
+    props = parse(value.strip(), opt)
+    return props[0].value if props else []
 
 
 def is_property(snippet):
